@@ -410,8 +410,23 @@ func compareProp(all []byte, seq []item, std stdRes, ncalls int) string {
 			break
 		}
 	}
-	// (InputOffset is not compared with the oracle: it is not part of the property and, on the pinned tree, it
-	// under-counts white space that is discarded when the buffer is recycled; the model reproduces it exactly.)
+	// all values and the terminal condition agree: InputOffset() after the k-th value must lie between the end of that
+	// value (= encoding/json.Decoder.InputOffset on the unchunked bytes) and the beginning of the next token
+	for k := 0; k < n && k < len(seq); k++ {
+		next := std.termAt
+		if k+1 < n {
+			next = std.starts[k+1]
+		}
+		if seq[k].off < int64(std.ends[k]) || seq[k].off > int64(next) {
+			ws := 0
+			for _, c := range all[:std.ends[k]] {
+				if isSpace(c) {
+					ws++
+				}
+			}
+			return fmt.Sprintf("off:%d:%d:%d:%d:%d", k, seq[k].off, std.ends[k], next, ws)
+		}
+	}
 	return "ok"
 }
 
